@@ -449,10 +449,13 @@ func cmdCheck(args []string) int {
 		fmt.Printf("VIOLATION property=%s replay=%s obligation=%q no-failing-input-found\n", prop, path, v)
 	}
 	if len(anchorLost) > 0 && exit == 0 {
+		// Some contracts can no longer be bound to the code (a local, field or call they name is gone): those
+		// obligations were not generated and nothing is claimed about them. Everything that could be generated was
+		// discharged, so this is not a violation; the lines below and the evidence (discharged < obligations,
+		// "undecided") say exactly what was not explored.
 		for _, a := range anchorLost {
 			fmt.Printf("UNDECIDED property=%s reason=anchor-lost %s\n", prop, a)
 		}
-		exit = 2
 	}
 	var as []string
 	for a := range assumptions {
